@@ -2,6 +2,8 @@ package gen
 
 import (
 	"sync"
+
+	"ergo.services/ergo/lib"
 )
 
 type MailboxMessageType int
@@ -31,10 +33,13 @@ var (
 )
 
 func TakeMailboxMessage() *MailboxMessage {
-	return mbm.Get().(*MailboxMessage)
+	m := mbm.Get().(*MailboxMessage)
+	lib.VerifPoint("mbox.take", m)
+	return m
 }
 
 func ReleaseMailboxMessage(m *MailboxMessage) {
+	lib.VerifPoint("mbox.release", m)
 	var emptyPID PID
 	var emptyRef Ref
 	m.Message = nil
